@@ -308,6 +308,16 @@ pub fn pick(a: T, b: T, lo: T, hi: T) -> Goal<TU, TE> {
     })
 }
 
+/// Silent diverger made of a recursive closure with a fresh variable (an endless chain of pauses).
+pub fn nevero(x: T) -> Goal<TU, TE> {
+    proto_vulcan_closure!(|y| { nevero(y) })
+}
+
+/// Silent diverger usable inside `dfs { }` as well: every recursion is wrapped in a closure, so every search step is finite.
+pub fn spin<G: AnyGoal<TU, TE>>() -> proto_vulcan::goal::InferredGoal<TU, TE, G> {
+    proto_vulcan_closure!([true, spin()])
+}
+
 /// The same goal value solved twice in a row.
 pub fn twice(g: Goal<TU, TE>) -> Goal<TU, TE> {
     let g2 = g.clone();
@@ -820,7 +830,7 @@ class Ref(object):
             return self.eq_goal(l, ('cons', self.fresh('h'), r), st)
         if name == 'empty':
             return self.eq_goal(args[0], ('nil',), st)
-        if name == 'never':
+        if name in ('never', 'nevero', 'spin'):
             self.infinite = True
             return []
         if name == 'always':
